@@ -33,6 +33,18 @@ DIALECT_SPECIFIC = [
 ]
 
 
+# complete templating expressions / statements and in-file configuration directives of the parser: whatever the
+# templater or the configuration loader raises on them must come out as the library's InvalidSyntaxException
+TEMPLATED = ["{{ 1/0 }}", "{{ 7 % 0 }}", "{{ x }}", "{{ x.y.z }}", "{{ x | upper }}", "{{ [1, 2][5] }}", "{{ {}['k'] }}", "{{ 'a' + 1 }}",
+             "{{ undefined_fn() }}", "{% if x %}a{% endif %}", "{% for i in range(3) %}{{ i }},{% endfor %}", "{% set a = 1 %}",
+             "{% include 'nofile.sql' %}", "{% macro m() %}{% endmacro %}", "{# c #}", "{{ 1 if }}", "{% endif %}", "{{ none.attr }}",
+             "{{ 1 | nosuchfilter }}", "{% raw %}{{{% endraw %}", "{{ int('x') }}", "{% import 'x' as y %}", "${x}", "%(x)s", ":x", "@x", "$1"]
+DIRECTIVES = ["-- sqlfluff:dialect:nosuchdialect\n", "-- sqlfluff:templater:python\n", "-- sqlfluff:templater:nosuch\n",
+              "-- sqlfluff:rules:L001\n", "-- sqlfluff:max_line_length:x\n", "-- sqlfluff:dialect:mysql\n", "-- noqa: disable=all\n",
+              "-- sqlfluff:indentation:tab_space_size:zero\n", "-- sqlfluff:templater:jinja:apply_dbt_builtins:maybe\n",
+              "-- sqlfluff:core:encoding:nosuch\n", "-- sqlfluff:\n", "-- sqlfluff:dialect\n"]
+
+
 def toks(s):
     return re.findall(r"\w+|\s+|[^\w\s]", s)
 
@@ -102,6 +114,23 @@ def main() -> int:
             sql = mutate(r, sql, pool)
         cases.append((sql, src["dialect"] if r.random() < 0.6 else r.choice(dialects), r.random() < 0.2))
     cases += [(s, d, False) for d, s in DIALECT_SPECIFIC] + [(s, d, True) for d, s in DIALECT_SPECIFIC]
+    for _ in range(500 if quick else 6000):
+        src = r.choice(recs)
+        t = toks(src["sql"])
+        c = r.random()
+        if c < 0.6 and t:
+            t.insert(r.randrange(len(t) + 1), " " + r.choice(TEMPLATED) + " ")
+            sql = "".join(t)
+        elif c < 0.9:
+            sql = r.choice(DIRECTIVES) + src["sql"]
+        else:
+            sql = r.choice(DIRECTIVES) + "select " + r.choice(TEMPLATED) + " from t"
+        cases.append((sql, src["dialect"] if r.random() < 0.6 else r.choice(dialects), r.random() < 0.2))
+    for tx in TEMPLATED:
+        cases.append(("select %s from t" % tx, "ansi", False))
+        cases.append(("select a from t;\nselect %s from t" % tx, "ansi", True))
+    for dv in DIRECTIVES:
+        cases.append((dv + "select a from t", "ansi", False))
     for d in dialects:
         cases.append(("", d, False))
         cases.append(("(" * 30 + "select 1" + ")" * 30, d, False))
@@ -194,7 +223,7 @@ def main() -> int:
                 "correspondence T2 (error kinds) between Tree/Extract.v (theorems c10_*) and the sqlfluff extractors",
                 "the error contract was evaluated on every case of the malformed stream under the listed dialects; no failing input")
     return ck.finish(rule="corpus and generated statements under token deletion / duplication / swap / insertion (SQL keywords, brackets, quotes, templating "
-                          "metacharacters) / bracket nesting up to 30 / cross-over, 1-2 mutations each, x 20 dialects x silent mode; dialect-specific statements; "
+                          "metacharacters) / bracket nesting up to 30 / cross-over / complete templating expressions and in-file parser directives, 1-2 mutations each, x 20 dialects x silent mode; dialect-specific statements; "
                           "silent mode x insertion position of unsupported statements; tsql texts under other dialects before and after tsql runs; non-trivial = distinct case that reached an extractor")
 
 
